@@ -165,6 +165,39 @@ def values_equal(a, b):
     return False
 
 
+def run_sequence(ex, pre, env, calls):
+    """calls: list of (Function, args_builder(env)->args, tymap).  Runs them one after the other on every path;
+    objects shared between the calls live in env (cloned consistently on forks).  Returns outcomes of the last call
+    plus every panic outcome of an earlier one."""
+    st0 = interp.State()
+    st0.pc = list(pre)
+    st0.env = env
+    states = [st0]
+    final = []
+    for k, call in enumerate(calls):
+        fn, build, tymap = call[:3]
+        store = call[3] if len(call) > 3 else None
+        nxt = []
+        for st in states:
+            ex.enter(st, fn, build(st.env), tymap)
+            for o in ex.explore(st):
+                if o.kind == "panic":
+                    o.msg = f"[call {k}: {fn.name.split('::')[-1]}] " + o.msg
+                    final.append(o)
+                    continue
+                if store:
+                    o.st.env[store] = Cell(o.value)
+                if k == len(calls) - 1:
+                    final.append(o)
+                else:
+                    o.st.trace.append("|")
+                    nxt.append(o.st)
+        states = nxt
+    if not calls:
+        final.append(interp.Outcome("return", UNIT, st0))
+    return final
+
+
 class KernelSpec:
     """One real function (possibly generic) + its pre/post-condition.  Subclasses fill in the abstract parts."""
     fn_pattern = None
@@ -203,6 +236,13 @@ class KernelSpec:
     def random_inputs(self, rng, inst, shape):
         """-> concrete inputs dict satisfying the precondition"""
         raise NotImplementedError
+
+    def explore(self, ctx, ex, fn, inst, shape, inputs, pre):
+        """default: one call of the function under test"""
+        args = self.make_args(inst, shape, inputs)
+        env = self.make_env(inst, shape, inputs) if hasattr(self, "make_env") else None
+        st = ex.start(fn, args, self.tymap(inst), pc=pre, env=env)
+        return ex.explore(st)
 
     def native(self, inst, shape, inputs):
         """-> (kernel name, tokens) for the native driver, or None if the kernel has no native driver"""
@@ -264,13 +304,10 @@ def run_kernel(ctx, ob, spec, rec):
         for shape in spec.shapes(ctx.tier, inst):
             ex = ctx.executor(spec.dumps, stubs=spec.stubs, max_paths=spec.max_paths, fuel=spec.fuel)
             inputs, pre = spec.sym_inputs(inst, shape)
-            args = spec.make_args(inst, shape, inputs)
-            env = spec.make_env(inst, shape, inputs) if hasattr(spec, "make_env") else None
-            st = ex.start(fn, args, spec.tymap(inst), pc=pre, env=env)
             ok_pre, _ = ex.check(pre)
             if not ok_pre:
                 raise interp.Unsupported(f"precondition unsatisfiable for {inst} {shape} (vacuous)")
-            outs = ex.explore(st)
+            outs = spec.explore(ctx, ex, fn, inst, shape, inputs, pre)
             n_ret = 0
             for o in outs:
                 if o.kind == "panic":
@@ -319,10 +356,7 @@ def concrete_run(ctx, spec, inst, shape, conc):
     """mirsym in concrete mode -> ('return', value) | ('panic', msg)"""
     fn = spec.get_fn(ctx, inst)
     ex = ctx.executor(spec.dumps, stubs=spec.stubs, max_paths=50, fuel=spec.fuel)
-    args = spec.make_args(inst, shape, conc)
-    env = spec.make_env(inst, shape, conc) if hasattr(spec, "make_env") else None
-    st = ex.start(fn, args, spec.tymap(inst), pc=[], env=env)
-    outs = ex.explore(st)
+    outs = spec.explore(ctx, ex, fn, inst, shape, conc, [])
     if len(outs) != 1:
         raise interp.Unsupported(f"concrete run produced {len(outs)} paths")
     o = outs[0]
